@@ -618,7 +618,7 @@ static void mode_pairs(char set, int shard, int nshard)
         for (uint16_t b : row) one_pair<true, true>(uint16_t(a), b, da, DEC[b]);
         pairs += (long long)row.size();
     }
-    vf::stat("operand_pairs_" C08_PATH, pairs);
+    vf::stat("operand_pairs_" C08_BUILD, pairs);
     flush_streams();
     if (shard == 0)
     {
@@ -659,7 +659,7 @@ static void mode_fma(const std::vector<uint16_t>& F, int shard, int nshard)
             n += (long long)F.size();
         }
     }
-    vf::stat("fma_alphabet_triples_" C08_PATH, n);
+    vf::stat("fma_alphabet_triples_" C08_BUILD, n);
     flush_streams();
     if (shard == 0)
     {
@@ -706,8 +706,8 @@ static void mode_fmad(char set, int shard, int nshard)
         }
         np += (long long)Y.size();
     }
-    vf::stat("fma_derived_triples_" C08_PATH, n);
-    vf::stat("fma_derived_pairs_" C08_PATH, np);
+    vf::stat("fma_derived_triples_" C08_BUILD, n);
+    vf::stat("fma_derived_pairs_" C08_BUILD, np);
     flush_streams();
 }
 
